@@ -130,6 +130,7 @@ def run_program(prog, scheduler='default', policy='random', seed=0, ops=None, du
             if ev.get('kind') == 'op' and ev.get('op') == 'rerun' and ev.get('args'):
                 ev['target_sid'] = ids['tk_rev'].get(ev['args'][0], '')
                 ev['arg'] = 'skip' if (len(ev['args']) > 2 and ev['args'][2]) else ('reset' if ev['args'][1] else 'noreset')
+            label_ev(ev, ids)
             ev.pop('args', None)
             ev.pop('result', None)
             for a in obs['ax']:
@@ -282,13 +283,46 @@ def _op_step(o, w, ids, root_id, obs):
     return None
 
 
+def label_ev(ev, ids):
+    """Arguments of the step in structural terms (task name, action index, first-run flag): with them the strict trace
+    validation knows WHICH message / job the step consumed and stays linear in the length of the run."""
+    import json as _json
+    a = ev.get('args')
+    t, k, fr = '', 0, True
+
+    def val(x):
+        if isinstance(x, str):
+            try:
+                return _json.loads(x)
+            except ValueError:
+                return x
+        return x
+    if ev.get('kind') in ('msg', 'ptq') and isinstance(a, dict):
+        if a.get('task_ex_id') is not None:
+            sid = ids['tk_rev'].get(val(a['task_ex_id']), '')
+            t = sid.split('/')[-1].split('#')[0]
+            fr = bool(val(a.get('first_run', True)))
+        elif a.get('action_ex_id') is not None and not val(a.get('wf_action', False)):
+            sid = ids['ax_rev'].get(val(a['action_ex_id']), '')
+            if '@' in sid:
+                t = sid.rsplit('@', 1)[0].split('/')[-1].split('#')[0]
+                try:
+                    k = int(sid.rsplit('.', 1)[1]) + 1
+                except ValueError:
+                    k = 0
+    elif ev.get('kind') == 'job' and str(ev.get('key') or '').startswith('th_r_t_s-'):
+        t = ids['tk_rev'].get(ev['key'][len('th_r_t_s-'):], '').split('/')[-1].split('#')[0]
+    ev['lt'], ev['lk'], ev['lfr'] = t, k, fr
+    return ev
+
+
 def _clean_ev(ev):
     a = ev.get('args') or []
     out = {'kind': ev.get('kind', ''), 'exc': ev.get('exc', 'none'), 'dup': bool(ev.get('dup', False)),
            'target': str(ev.get('target_sid', '')), 'arg': str(ev.get('arg', '')),
            'what': str(ev.get('method') or ev.get('op') or ev.get('func') or ev.get('kind')),
            'phase': str(ev.get('phase', '')), 'now': ev.get('now', 0), 'n': int(ev.get('n', 0) or 0), 'writes': ev.get('writes', []),
-           'exc_msg': ev.get('exc_msg', '')}
+           'exc_msg': ev.get('exc_msg', ''), 't': str(ev.get('lt', '')), 'k': int(ev.get('lk', 0) or 0), 'fr': bool(ev.get('lfr', True))}
     return out
 
 
